@@ -22,7 +22,9 @@ CELLS = {'c1': [0.0, 0.36], 'c2': [0.0, 0.18, 0.36], 'c3': [0.0, 0.09, 0.27, 0.3
 BOUNDS = {'whole': None, 'aligned': (0.09, 0.27), 'lower-mid': (0.06, 0.27),
           'upper-mid': (0.09, 0.30), 'both-mid': (0.06, 0.30), 'lowfi': 'lowfi',
           # un-rodded end caps thinner than any axial step: each is exactly one step
-          'thin-caps': (0.00002, 0.35997)}
+          'thin-caps': (0.00002, 0.35997),
+          # bounds with seven decimals in metres (what a conversion from inches gives), next to power-cell bounds
+          'fine7': (0.0900004, 0.2699994)}
 ORDER_SHAPES = {0: 'flat', 1: 'up', 2: 'mid', 3: 'cubic'}
 COMPS = {'all': ('pins', 'duct', 'cool'), 'pins': ('pins',), 'duct': ('duct',), 'cool': ('cool',),
          'pins+duct': ('pins', 'duct'), 'pins+cool': ('pins', 'cool'), 'duct+cool': ('duct', 'cool')}
